@@ -26,8 +26,8 @@ def run(ctx, replay):
     if replay:
         files = [(os.path.join(replay, f), "go" if f.endswith(".go.y") else "ts", f) for f in os.listdir(replay) if f.endswith(".y")]
     else:
-        r = ctx.vh(["render", "-out", out, "-seed", ctx.seed, "-corpus", conf.CORPUS, "-nrand", ctx.pick(10, 80), "-nexpr", ctx.pick(4, 30),
-                    "-nfeat", ctx.pick(6, 50), "-ndp", ctx.pick(6, 40), "-nctx", ctx.pick(160, 800), "-nring", ctx.pick(8, 60), "-valued", 50])
+        r = ctx.vh(["render", "-out", out, "-seed", ctx.seed, "-corpus", conf.CORPUS, "-nrand", ctx.pick(10, 300), "-nexpr", ctx.pick(4, 100),
+                    "-nfeat", ctx.pick(6, 200), "-ndp", ctx.pick(6, 150), "-nctx", ctx.pick(160, 2500), "-nring", ctx.pick(8, 200), "-valued", 50])
         recs = json.load(open(os.path.join(out, "render.json")))
         files = [(os.path.join(out, rc["file"]), rc["lang"], rc["file"]) for rc in recs]
     cli = ctx.cli()
